@@ -66,6 +66,57 @@ def run_scenario(args, timeout=300, notes=None):
         return {"reproduced": None, "output": "scenario timed out", "how": "driver " + " ".join(args)}
 
 
+QUOTA_SRC = os.path.join(ov.VERIF, "replay", "driver", "quota_race.rs")
+
+
+def run_quota_race(rounds=300, timeout=600, notes=None):
+    """C14: build the real server binary and the gRPC race driver (replay/driver/quota_race.rs) from a pristine copy of
+    the current tree, start the server with authentication and a 4-vector tenant, and race Insert(overwrite) against
+    Delete of the same document.  REPRODUCED iff the tenant ends up holding more live documents than max_vectors."""
+    how = "native scenario: quota_race <server binary built from the current tree> %d (concurrent gRPC Insert||Delete rounds)" % rounds
+    os.makedirs(NATIVE_TARGET, exist_ok=True)
+    t0 = time.time()
+    o = ov.Overlay("native-quota", "native")
+    o.__enter__()
+    try:
+        exdir = os.path.join(o.root, "engine", "examples")
+        os.makedirs(exdir, exist_ok=True)
+        shutil.copy(QUOTA_SRC, os.path.join(exdir, "quota_race.rs"))
+        env = dict(os.environ)
+        env["CARGO_NET_OFFLINE"] = "true"
+        env.pop("RUSTUP_TOOLCHAIN", None)
+        p = subprocess.run(["cargo", "build", "--offline", "--bin", "kyrodb_server", "--example", "quota_race", "--target-dir", NATIVE_TARGET, "-j", "12"],
+                           cwd=os.path.join(o.root, "engine"), env=env, stdout=subprocess.PIPE, stderr=subprocess.STDOUT, text=True, timeout=2400)
+        srv = os.path.join(NATIVE_TARGET, "debug", "kyrodb_server")
+        drv = os.path.join(NATIVE_TARGET, "debug", "examples", "quota_race")
+        if p.returncode != 0 or not os.path.exists(srv) or not os.path.exists(drv):
+            errs = [l for l in p.stdout.splitlines() if l.startswith("error")]
+            return {"reproduced": None, "output": "quota_race build failed: " + (errs[0] if errs else p.stdout[-300:]), "how": how}
+        pid = os.getpid()
+        srv2, drv2 = os.path.join(ov.BUILD_DIR, "kyrodb_server.%d" % pid), os.path.join(ov.BUILD_DIR, "quota_race.%d" % pid)
+        shutil.copy(srv, srv2)
+        shutil.copy(drv, drv2)
+        if notes is not None:
+            notes.append("server + quota_race built in %.0fs" % (time.time() - t0))
+    finally:
+        o.__exit__(None, None, None)
+    try:
+        p = subprocess.run([drv2, srv2, str(rounds)], stdout=subprocess.PIPE, stderr=subprocess.STDOUT, text=True, timeout=timeout, env=dict(os.environ, RUST_LOG="off"))
+        out = p.stdout.strip().splitlines()
+        verdict = [l for l in out if l.startswith(("REPRODUCED", "NOT-REPRODUCED"))]
+        line = verdict[-1] if verdict else (out[-1] if out else "")
+        rep = True if line.startswith("REPRODUCED") else False if line.startswith("NOT-REPRODUCED") else None
+        return {"reproduced": rep, "output": line[:600], "how": how}
+    except subprocess.TimeoutExpired:
+        return {"reproduced": None, "output": "scenario timed out", "how": how}
+    finally:
+        for f in (srv2, drv2):
+            try:
+                os.unlink(f)
+            except OSError:
+                pass
+
+
 def cleanup():
     for k, (binp, _e) in list(_built.items()):
         if binp and os.path.exists(binp):
@@ -104,6 +155,13 @@ def replay_file(prop, path):
         return 0
     d = json.load(open(path))
     print(json.dumps(d, indent=1)[:4000])
+    if (d.get("property", prop), d.get("obligation", "")) == ("C14", "O14.3/delete_locked"):
+        r = run_quota_race()
+        print("\n[verif] %s: %s" % (r.get("how"), r.get("output")))
+        if r.get("reproduced"):
+            print("VIOLATION property=%s replay=%s" % (prop, path))
+            return 1
+        return 0 if r.get("reproduced") is False else 2
     sc = SCENARIO_BY_OBLIGATION.get((d.get("property", prop), d.get("obligation", "")))
     if not sc:
         print("\n[verif] no native scenario is registered for this obligation; the stored path/model above is the counterexample")
